@@ -26,7 +26,7 @@ ENTRIES_B = [
 ]
 
 CONSUME = (r"(Read::read_exact|Read::read|BufRead::read_until|BufRead::read_line|AsyncReadExt::read_exact|AsyncBufReadExt::read_until|"
-           r"Iterator>?::next|Iterator::next|::next_back|Peekable<I>::next_if|mpsc::Receiver::<T>::recv|Read::read_to_end|Read::read_to_string|"
+           r"Iterator>?::next|Iterator::next|::next_back|Peekable::<I>::next_if|Peekable::<I>::next_if_eq|mpsc::Receiver::<T>::recv|Read::read_to_end|Read::read_to_string|"
            r"Iterator::(for_each|fold|collect|any|all|find|position|count|last|sum)|Iterator>::(fold|for_each|collect))$")
 LENGTH_SRC = r"<impl str>::parse$|from_str_radix$|::from_be_bytes$|::from_le_bytes$|::from_ne_bytes$|FromStr::from_str$"
 ALLOC_SINK = r"^std::vec::from_elem$|Vec::<T>::with_capacity$|Vec::<T, A>::(with_capacity_in|reserve|reserve_exact|resize)$|String::(with_capacity|reserve)$|VecDeque::<T>::with_capacity$"
